@@ -320,6 +320,37 @@ func init() {
 			return e.ts.Ite(e.ts.Cmp(OpSlt, x, y), e.ts.Const(64, ^uint64(0)), e.ts.Ite(e.ts.Eq(x, y), e.ts.Const(64, 0), e.ts.Const(64, 1)))
 		},
 		"(time.Time).UnixNano": func(e *Exec, fn *ssa.Function, a []Value) Value { return timeExt(e, a[0]) },
+		"(time.Time).Unix": func(e *Exec, fn *ssa.Function, a []Value) Value {
+			// seconds since 1970: floor(ext / 1e9); decided for concrete instants and for symbolic
+			// instants whose second is pinned by the path condition (concrete second + offset)
+			ext := timeExt(e, a[0])
+			ts := e.ts
+			if ext.IsConst() {
+				v := ext.SInt()
+				q := v / 1000000000
+				if v%1000000000 < 0 {
+					q--
+				}
+				return ts.Const(64, uint64(q))
+			}
+			key := fmt.Sprintf("unix:%d", ext.id)
+			if u, ok := e.envState[key].(*Term); ok {
+				return u
+			}
+			// if the path condition pins the second (e.g. concrete second + symbolic offset),
+			// return it as a constant: no multiplication reaches the solver
+			if c, ok := e.uniqueSecond(ext); ok {
+				u := ts.Const(64, uint64(c))
+				e.envState[key] = u
+				return u
+			}
+			// the general case needs ext = u*1e9 + r over 64 bits, which none of the three
+			// solvers decides within minutes (probed): reported as unsupported rather than burnt
+			e.unsupported("(time.Time).Unix of an instant whose second is not fixed by the path")
+			var u *Term
+			e.envState[key] = u
+			return u
+		},
 		"(time.Time).IsZero":   func(e *Exec, fn *ssa.Function, a []Value) Value { return e.ts.Eq(timeExt(e, a[0]), e.ts.Const(64, 0)) },
 		"(time.Time).UTC":      func(e *Exec, fn *ssa.Function, a []Value) Value { return mkTime(e, timeExt(e, a[0])) },
 		"(time.Time).Local":    func(e *Exec, fn *ssa.Function, a []Value) Value { return mkLocalTime(e, timeExt(e, a[0])) },
@@ -721,6 +752,31 @@ func inErrorsIs(e *Exec, fn *ssa.Function, a []Value) Value {
 
 // ---------- time model ----------
 // A modelled time.Time is the struct {wall:0, ext:<ns since 1970>, loc:nil}.
+
+// uniqueSecond reports the second of ext if the path condition leaves only one (signed ext >= 0).
+func (e *Exec) uniqueSecond(ext *Term) (int64, bool) {
+	ts := e.ts
+	probe := ts.Var(e.uniqueName("unix.probe"), 64)
+	e.sol.Push()
+	e.sol.Assert(ts.Eq(probe, ext))
+	ok := false
+	var sec int64
+	if e.sol.Check() == Sat {
+		if m := e.sol.Values([]*Term{probe}); m != nil {
+			v := int64(m[probe.Name])
+			if v >= 0 {
+				sec = v / 1000000000
+				lo, hi := ts.Const(64, uint64(sec*1000000000)), ts.Const(64, uint64((sec+1)*1000000000))
+				e.sol.Push()
+				e.sol.Assert(ts.Or(ts.Cmp(OpSlt, ext, lo), ts.Cmp(OpSle, hi, ext)))
+				ok = e.sol.Check() == Unsat
+				e.sol.Pop(1)
+			}
+		}
+	}
+	e.sol.Pop(1)
+	return sec, ok
+}
 
 func mkTime(e *Exec, ext *Term) Value {
 	return &StructV{F: []Value{e.ts.Const(64, 0), ext, NilPtr{}}}
